@@ -358,6 +358,27 @@ func ReferenceCases() []*Case {
 			}
 		}
 	}
+	// types of the built-in j5 packages, imported by full name, short name and alias
+	for _, bt := range []struct{ pkg, dir, file, name string }{{"j5.list.v1", "j5/list/v1", "page", "PageRequest"}, {"j5.state.v1", "j5/state/v1", "metadata", "StateMetadata"}, {"j5.list.v1", "j5/list/v1", "query", "QueryRequest"}} {
+		short := strings.Split(bt.pkg, ".")[1]
+		for _, fm := range []struct {
+			name string
+			imp  Import
+			qual string
+		}{{"builtin-full-name", Import{Pkg: bt.pkg}, bt.pkg}, {"builtin-short-name", Import{Pkg: bt.pkg}, short}, {"builtin-alias", Import{Pkg: bt.pkg, Alias: "bi"}, "bi"}} {
+			for _, cont := range []string{"plain", "array"} {
+				target := &Decl{Kind: DObject, Name: bt.name, File: &File{Dir: bt.dir, Name: bt.file, IsProto: true}}
+				user := file("foo/v1", "a")
+				user.Imports = []Import{fm.imp}
+				t := RefTo(target, fm.qual)
+				if cont == "array" {
+					t = ArrayOf(t)
+				}
+				user.Add(obj("User", fld("ref", t)))
+				out = append(out, &Case{ID: fmt.Sprintf("ref:builtin:%s:%s:%s", bt.name, fm.name, cont), Family: "references", Coord: "references|kind=object|form=" + fm.name, P: &Program{Files: []*File{user}}})
+			}
+		}
+	}
 	// two imported packages whose default short name is the same (acme.common.v1 / beta.common.v1):
 	// one is used under its default name, the other under an alias, in both import orders
 	for _, kind := range kinds {
@@ -436,6 +457,24 @@ func ServiceCases() []*Case {
 					out = append(out, &Case{ID: fmt.Sprintf("service:%s:%s:%s:%s", verb, p.name, resp, base), Family: "services", Coord: fmt.Sprintf("services|verb=%s|path=%s|response=%s", verb, p.name, resp), P: &Program{Files: []*File{f}}})
 				}
 			}
+		}
+	}
+	// source files whose names contain dots, two of them with the same first segment, each with a service / topic
+	for _, names := range [][2]string{{"orders.query", "orders.command"}, {"a.b.c", "a.b"}, {"x", "x.extra"}} {
+		for _, what := range []string{"services", "topics", "service-and-topic"} {
+			var files []*File
+			for i, n := range names {
+				f := file("t/v1", n)
+				tag := []string{"First", "Second"}[i]
+				if what == "services" || (what == "service-and-topic" && i == 0) {
+					f.Add(&Service{Name: tag, BasePath: "/t/v1/" + strings.ToLower(tag), Methods: []*Method{{Name: "Do" + tag, Verb: "GET", Path: "/x", HasResponse: true}}})
+				} else {
+					f.Add(&Topic{Name: tag, Kind: "publish", Messages: []*TopicMsg{{Name: "Post" + tag, Fields: []*Field{fld("x", T(TString))}}}})
+				}
+				f.Add(obj(tag+"Thing", fld("x", T(TString))))
+				files = append(files, f)
+			}
+			out = append(out, &Case{ID: fmt.Sprintf("service:dotted-files:%s+%s:%s", names[0], names[1], what), Family: "services", Coord: "services|dotted-file-names", P: &Program{Files: files}})
 		}
 	}
 	// method paths that repeat, extend or resemble the base path: base + path is plain concatenation
@@ -614,6 +653,41 @@ func DependencyCases() []*Case {
 			jf.Imports = []Import{{Pkg: depPkg, Alias: "dep"}}
 			jf.Add(obj("User", fld("ref", RefTo(target, "dep")), fld("refs", ArrayOf(RefTo(target, "dep")))))
 			out = append(out, &Case{ID: fmt.Sprintf("dependency:%s:%s", dep, kind), Family: "dependencies", Coord: "dependencies|" + dep, P: &Program{Files: []*File{jf, df}}})
+		}
+	}
+	return out
+}
+
+// OddNameCases: field, type and method names with acronyms, digits and single-letter
+// segments in every container. The reference compiler does not model how such names are
+// snake-cased, so these are used by the checks that need no naming model (C07 acceptance,
+// C05 print / re-parse, C15, C16).
+func OddNameCases() []*Case {
+	var out []*Case
+	names := []string{"md5sums", "byUserID", "tagsByID", "fooURLs", "x", "aB", "v2", "userIDs", "httpURL2", "a1b2"}
+	for _, n := range names {
+		for _, cont := range []string{"plain", "array", "map"} {
+			for _, tk := range []string{"string", "object-inline", "enum-inline"} {
+				f := file("t/v1", "a")
+				var t *Type
+				switch tk {
+				case "string":
+					t = T(TString)
+				case "object-inline":
+					t = InlineOf(obj("", fld("z", T(TBool))))
+				case "enum-inline":
+					t = InlineOf(enumD("", "A", "B"))
+				}
+				switch cont {
+				case "array":
+					t = ArrayOf(t)
+				case "map":
+					t = MapOf(t)
+				}
+				f.Add(obj("Holder", fld(n, t), fld("tail", T(TString))))
+				f.Add(&Service{Name: "Odd", BasePath: "/t/v1", Methods: []*Method{{Name: "PutIt", Verb: "POST", Path: "/it", Request: []*Field{fld(n, t)}, HasResponse: true, Response: []*Field{fld("holder", RefTo(f.Decls[0].(*Decl), ""))}}}})
+				out = append(out, &Case{ID: fmt.Sprintf("odd-field-name:%s:%s:%s", n, cont, tk), Family: "odd-names", Coord: "odd-names|" + cont + "|" + tk, P: &Program{Files: []*File{f}}})
+			}
 		}
 	}
 	return out
